@@ -146,8 +146,14 @@ def plan_cases(mod, seed, tier):
 
 
 def run_one(mod, case, ctx):
+    from . import monitors
+    monitors.drain()
     out = mod.run(case, ctx)
     out.tags.add(case.family)
+    for evt in monitors.drain():
+        if evt['monitor'].endswith('-harness'):
+            raise RuntimeError(evt['detail'])
+        out.violation('contract:' + evt['monitor'], evt['detail'])
     return out
 
 
